@@ -88,18 +88,6 @@ fn plain_run(w: &mut TraceWriter, rng: &mut Rng, steps: u64) {
     }
 }
 
-fn message_event(b: &Builder) -> Value {
-    // a Message over a copy of the octets built so far
-    let proj = b.project(0, &[]);
-    let octs: Vec<u8> = {
-        let mut v = bytes_of(&proj["h"]);
-        v.clear();
-        v
-    };
-    let _ = octs;
-    proj
-}
-
 fn builder_run(w: &mut TraceWriter, rng: &mut Rng, steps: u64) {
     let mut b = Builder::new();
     let mut e = b.project(0, &[]);
@@ -166,8 +154,6 @@ fn builder_run(w: &mut TraceWriter, rng: &mut Rng, steps: u64) {
         w.event(event(&k, &a, b.project(r, &c)));
         if rng.chance(1, 8) {
             // what an independent Message over the same octets says
-            let proj = b.project(0, &[]);
-            let mut octs = bytes_of(&proj["h"]);
             let full: Vec<u8> = match &b.stage {
                 Stage::None => vec![],
                 Stage::B(x) => x.as_slice().to_vec(),
@@ -176,17 +162,13 @@ fn builder_run(w: &mut TraceWriter, rng: &mut Rng, steps: u64) {
                 Stage::Au(x) => x.as_slice().to_vec(),
                 Stage::Ad(x) => x.as_slice().to_vec(),
             };
-            if full.len() >= 12 {
-                octs = full;
-            }
-            let m = Message::from_octets(octs).unwrap();
+            let m = Message::from_octets(full).unwrap();
             let mut hh = m.header().as_slice().to_vec();
             hh.extend_from_slice(m.header_counts().as_slice());
             w.event(json!({"ev": "message", "h": jb(&hh), "rc": m.opt_rcode().to_int(),
                            "ne": m.no_error() as i64, "has": m.opt().is_some() as i64}));
         }
     }
-    let _ = message_event(&b);
 }
 
 fn main() {
